@@ -115,8 +115,26 @@ class Engine(StmtMixin, EvalMixin, Interp):
 
         def minmax(which):
             def f(interp, args, kw):
-                if "key" in kw:
-                    raise Unsupported("min/max with key")
+                keyf = kw.get("key")
+                if keyf is not None:
+                    # min / max with key=: the FIRST element whose key is minimal / maximal (CPython semantics)
+                    items = interp.iterate_concrete(args[0]) if len(args) == 1 else list(args)
+                    if not items:
+                        if "default" in kw:
+                            return kw["default"]
+                        raise PyExc("ValueError", which + "() arg is an empty sequence")
+                    acc = interp.resolve(items[0])
+                    acck = interp.call(keyf, [acc], {})
+                    for x in items[1:]:
+                        x = interp.resolve(x)
+                        xk = interp.call(keyf, [x], {})
+                        if is_int(acck) and is_int(xk):
+                            better = (xk < acck) if which == "min" else (xk > acck)
+                        else:
+                            better = interp.sym_lt("<", xk, acck) if which == "min" else interp.sym_lt(">", xk, acck)
+                        if interp.branch(better):
+                            acc, acck = x, xk
+                    return acc
                 if len(args) == 1:
                     seq = interp.resolve(args[0])
                     s, c = interp._as_sequence(seq)
@@ -421,6 +439,15 @@ class Engine(StmtMixin, EvalMixin, Interp):
 
         @reg("print")
         def _print(interp, args, kw):
+            fh = kw.get("file")
+            if isinstance(fh, Opaque) and "$lines" in fh.attrs:
+                # print(..., file=<text sink of the contract>): the rendered text is appended to the sink
+                sep, end = kw.get("sep", " "), kw.get("end", "\n")
+                parts = [interp.to_str(a) for a in args]
+                if not all(isinstance(x, str) for x in parts) or not isinstance(sep, str) or not isinstance(end, str):
+                    raise Unsupported("print of symbolic text to a file object")
+                fh.attrs["$lines"].append(sep.join(parts) + end)
+                return None
             interp.output.append(("print", args, kw))
             return None
 
@@ -448,6 +475,7 @@ class Engine(StmtMixin, EvalMixin, Interp):
         X["itertools.count"] = lambda interp, a, k: LazySeq(None, lambda i, _s=(a[0] if a else 0): _s + i, "count")
         X["itertools.zip_longest"] = self.ext_zip_longest
         X["itertools.groupby"] = self.ext_groupby
+        X["itertools.product"] = self.ext_product
         X["warnings.warn"] = lambda interp, a, k: None
         X["dataclasses.astuple"] = lambda interp, a, k: tuple(
             a[0].attrs[f] for c in reversed(a[0].cls.mro(interp.repo)) for f in _dc_fields(c))
@@ -841,6 +869,16 @@ class Engine(StmtMixin, EvalMixin, Interp):
         for a in args:
             out.extend(self.iterate_concrete(a))
         return SymIter(out, 0)
+
+    def ext_product(self, interp, args, kw):
+        """itertools.product(*iterables): tuples in lexicographic (odometer) order; concrete-length operands only."""
+        import itertools as _it
+        self.trusted_used.add("itertools.product")
+        pools = [list(self.iterate_concrete(a)) for a in args]
+        rep = kw.get("repeat", 1)
+        if not isinstance(rep, int):
+            raise Unsupported("itertools.product with symbolic repeat")
+        return SymIter([tuple(t) for t in _it.product(*pools, repeat=rep)], 0)
 
     def ext_groupby(self, interp, args, kw):
         """itertools.groupby(iterable, key): consecutive runs of equal keys, as (key, list-of-items) pairs (the real
